@@ -201,6 +201,42 @@ def run_shard(tier, seed, idx, n, res, tmp):
                                'traceback': 'Traceback' in r.stderr},
                               {'stderr': r.stderr[-600:]}, {'workload': 'cli', 'files': files})
             res.see('cli', r.returncode, ok_line)
+        # (5) inputs the command line must refuse before or while reading them: each must be answered
+        # on stderr with an 'error:' line, exit status 1 and no traceback
+        if idx == 0:
+            d = os.path.join(tmp, 'cli_special')
+            os.makedirs(d, exist_ok=True)
+            good = os.path.join(d, 'good.stone')
+            with open(good, 'w') as f:
+                f.write('namespace good\n\nstruct S\n    f String\n')
+            specials = {
+                'not_utf8': (b'namespace x\n\nstruct S\n    "caf\xe9 \xff\xfe"\n    f String\n', 'bad.stone'),
+                'utf16_bom': ('namespace x\n'.encode('utf-16'), 'bom.stone'),
+                'wrong_extension': (b'namespace x\n', 'spec.txt'),
+                'missing_file': (None, 'nowhere.stone'),
+                'nul_bytes': (b'namespace x\n\x00\x00struct S\n    f String\n', 'nul.stone'),
+            }
+            for name, (data, fn) in specials.items():
+                pth = os.path.join(d, fn)
+                if data is not None:
+                    with open(pth, 'wb') as f:
+                        f.write(data)
+                for order in ([pth], [good, pth]):
+                    try:
+                        r = subprocess.run([common.PY, '-m', 'stone.cli', 'python_types', os.path.join(d, 'out'), *order,
+                                            '--', '-p', 'x'], env=common.child_env(), capture_output=True,
+                                           text=True, timeout=120, cwd=d)
+                    except subprocess.TimeoutExpired:
+                        res.inconclusive.append('cli timeout on special input %s' % name)
+                        continue
+                    res.evaluations += 1
+                    res.count('cli_special_inputs')
+                    ok = r.returncode == 1 and 'error' in r.stderr and 'Traceback' not in r.stderr
+                    if not ok:
+                        res.violation({'kind': 'cli_bad_answer', 'returncode': r.returncode,
+                                       'traceback': 'Traceback' in r.stderr, 'input': name},
+                                      {'stderr': r.stderr[-500:]}, {'workload': 'cli_special', 'input': name})
+                    res.see('cli_special', name, r.returncode)
     finally:
         obs.stop()
     for (et, f, fn), c in obs.origins.items():
